@@ -10,6 +10,7 @@ import (
 	"path/filepath"
 	"regexp"
 	"slices"
+	"strings"
 	"sync"
 
 	"github.com/jessevdk/go-flags"
@@ -380,7 +381,7 @@ func removeLineFromFile(filePath, line string) error {
 
 	scanner := bufio.NewScanner(f)
 	for scanner.Scan() {
-		if scanner.Text() != line {
+		if normalizeIniLine(scanner.Text()) != normalizeIniLine(line) {
 			_, err := buf.Write(scanner.Bytes())
 			if err != nil {
 				return err
@@ -400,6 +401,16 @@ func removeLineFromFile(filePath, line string) error {
 		return err
 	}
 	return nil
+}
+
+// normalizeIniLine strips the blanks the ini parser ignores around the key and
+// the value, so that 'key = value' written by hand matches 'key=value'.
+func normalizeIniLine(line string) string {
+	key, value, found := strings.Cut(line, "=")
+	if !found {
+		return strings.TrimSpace(line)
+	}
+	return strings.TrimSpace(key) + "=" + strings.TrimSpace(value)
 }
 
 func (p *Policy) reload(r io.Reader) error {
